@@ -88,3 +88,12 @@ def refine(trajs):
 
 def tolists(trajs):
     return [[int(v) for v in t] for t in trajs]
+
+
+def alt_layouts(M):
+    """the same 2-d float matrix in other memory layouts: Fortran order, a transposed view of the
+    transposed copy, and a strided window of a larger buffer"""
+    M = np.asarray(M)
+    big = np.full((2 * M.shape[0] + 1, 2 * M.shape[1] + 1), 0.123, dtype=M.dtype)
+    big[1::2, 1::2] = M
+    return {'fortran': np.asfortranarray(M), 'transposed-view': np.ascontiguousarray(M.T).T, 'strided': big[1::2, 1::2]}
